@@ -350,6 +350,29 @@ def run(prog: Program, res: Result) -> None:  # noqa: PLR0912, PLR0915
         res.fail("C08.R5", file=EXT, line=bd.node.lineno if bd else 0, qualname="BlockDrop.__getitem__", construct="super rendering", message="block.super does not render the next less-derived definition", what=what)
 
     # ------------------------------------------------------------------ R7 a partial is rendered in a context that names it
+    res.rule("C08.R9", "the inheritance tag parsers never consume a token and decide what it was in one step (`tokens.next().type_ == X` discards the token whatever it is): a misspelt `required` after a block's name must be a syntax error, not an optional block that renders its placeholder silently")
+    probe = ast.parse("required = tokens.next().type_ == TokenType.REQUIRED")
+
+    def _swallows(tree: ast.AST) -> list[ast.AST]:
+        out = []
+        for c in ast.walk(tree):
+            if isinstance(c, ast.Compare) and isinstance(c.left, ast.Attribute) and isinstance(c.left.value, ast.Call) and isinstance(c.left.value.func, ast.Attribute) and c.left.value.func.attr == "next":
+                out.append(c)
+        return out
+
+    if len(_swallows(probe)) != 1:
+        raise AnalysisError("C08.R9 matcher self-check failed")
+    n9 = 0
+    for f in sorted(prog.mod(EXT).functions.values(), key=lambda f: f.node.lineno):
+        if f.name != "parse":
+            continue
+        n9 += 1
+        bad = [c for c in _swallows(f.node) if prog.enclosing_function(f.module, c) is f]
+        if bad:
+            res.fail("C08.R9", file=EXT, line=bad[0].lineno, qualname=f.qualname, construct=f"{f.qualname}: a token is consumed and tested in one step", message=f"{f.qualname} does `{norm(bad[0], 70)}`: the token is consumed whatever it is, so any stray word there (a misspelt `required`) is silently dropped and the block is optional", what=f"{f.qualname}: tokens are identified before they are consumed")
+        else:
+            res.ok("C08.R9", f"{EXT}:{f.node.lineno} {f.qualname}", f"{f.qualname}: tokens are identified before they are consumed", "no next()-and-compare")
+    res.floor("C08.R9", "inheritance tag parsers", n9, 2)
     res.rule("C08.R8", "the inheritance tags are never taken for whitespace: ExtendsNode and the inheritance BlockNode write the parent chain's / the override's text, so their `blank` flag is False however they are nested - a blank `extends` inside a `{% liquid %}` or `{% if %}` whose other children are blank is rendered into the null buffer and the page comes out empty, without an error (shared with C01.R2 / C18.R2, restricted to liquid2/builtin/tags/extends_tag.py)")
     from checks.blank import check_blank_flags
 
